@@ -165,6 +165,74 @@ func verifStoreOf(f *fileStore) *VerifStore {
 	return nil
 }
 
+// VerifWindow watches, without a scheduler, the statements run between Begin and End on the calling goroutine: a
+// page or the header written to the data file after the statement's first change (a page stamped) and before the
+// completion of its log append is reported. (CREATE TABLE ends in a flush of its own and is not to be bracketed.)
+type VerifWindow struct {
+	changed, logged, active bool
+	stmt                    string
+	problems                []string
+	prevDirty               func(n *btreeNode, lsn uint64)
+	prevPage                func(f *fileStore, off uint64, data []byte)
+	prevHeader              func(f *fileStore, data []byte)
+	prevEnd                 func(w *wal, n int)
+}
+
+func VerifNewWindow() *VerifWindow {
+	v := &VerifWindow{prevDirty: vhMarkDirty, prevPage: vhPageWrite, prevHeader: vhHeaderWrite, prevEnd: vhWalFlushEnd}
+	vhMarkDirty = func(n *btreeNode, lsn uint64) {
+		if v.prevDirty != nil {
+			v.prevDirty(n, lsn)
+		}
+		if v.active {
+			v.changed = true
+		}
+	}
+	note := func(what string) {
+		if v.active && v.changed && !v.logged && len(v.problems) < 5 {
+			v.problems = append(v.problems, fmt.Sprintf("%s written to the data file between the first change of %q and the completion of its log append", what, v.stmt))
+		}
+	}
+	vhPageWrite = func(f *fileStore, off uint64, data []byte) {
+		note(fmt.Sprintf("page %d", off))
+		if v.prevPage != nil {
+			v.prevPage(f, off, data)
+		}
+	}
+	vhHeaderWrite = func(f *fileStore, data []byte) {
+		note("file header")
+		if v.prevHeader != nil {
+			v.prevHeader(f, data)
+		}
+	}
+	vhWalFlushEnd = func(w *wal, n int) {
+		if v.active {
+			v.logged = true
+		}
+		if v.prevEnd != nil {
+			v.prevEnd(w, n)
+		}
+	}
+	return v
+}
+
+func (v *VerifWindow) Begin(stmt string) {
+	v.active, v.changed, v.logged, v.stmt = true, false, false, stmt
+}
+
+// End closes the statement's window and returns what was seen inside it so far.
+func (v *VerifWindow) End() []string {
+	v.active = false
+	p := v.problems
+	v.problems = nil
+	return p
+}
+
+// Remove uninstalls the monitor.
+func (v *VerifWindow) Remove() {
+	vhMarkDirty, vhPageWrite, vhHeaderWrite, vhWalFlushEnd = v.prevDirty, v.prevPage, v.prevHeader, v.prevEnd
+}
+
 // VerifSetLastKey puts the store's row id counter at v (a state that only billions of rows reach otherwise).
 func VerifSetLastKey(rs *RelationService, v uint32) { rs.fs.lastKey = v }
 
